@@ -1,4 +1,4 @@
-import PegVerif.Proofs.Boundary
+import PegVerif.Proofs.BoundaryEval
 /-
   C04 – no panic and no split UTF-8 sequence on any input string.
 
@@ -51,5 +51,37 @@ theorem C04_guard (items : List StringItem) (lit : List Char) (h : decodeLit ite
     (hna : lit.all isAscii = false) : ∃ msg, compileLit true items = .err msg := by
   unfold compileLit
   simp [h, hna]
+
+/-! ### the whole evaluator -/
+
+/-- **No runtime panic.** With user externs that return character-boundary lengths, a parse of any
+    valid UTF-8 input never hits the overrun panic of `advance` nor the boundary panic of
+    `advance_safe` (other panic strings belong to the generator-side domain of C03/C15). -/
+theorem C04_no_runtime_panic (env : Env) (cs : List Char) (hx : GoodExterns env.hooks) (rule : String) (n u : Nat)
+    {r : Res Val} {g : Global} (h : parseAdvanced env n rule (enc cs) u = some (r, g)) :
+    ∀ m, r = .panic m → ¬ RuntimePanic m :=
+  Peg.C04_no_runtime_panic env cs hx rule n u h
+
+/-- **Every exposed offset is a boundary inside the input**: the end state of a success and the
+    position of a reported error. -/
+theorem C04_offsets_on_boundaries (env : Env) (cs : List Char) (hx : GoodExterns env.hooks) (rule : String) (n u : Nat)
+    {r : Res Val} {g : Global} (h : parseAdvanced env n rule (enc cs) u = some (r, g)) :
+    (∀ v s, r = .ok v s → IsBoundary cs s.off ∧ s.off ≤ (enc cs).length) ∧
+    (∀ e, r = .err e → IsBoundary cs e.pos ∧ e.pos ≤ (enc cs).length) :=
+  Peg.C04_offsets_on_boundaries env cs hx rule n u h
+
+/-- **The returned tree**: every `position` range is a pair of boundaries and every string is the
+    encoding of a contiguous sub-list of the input's characters (a valid UTF-8 substring). -/
+theorem C04_values_on_boundaries (env : Env) (cs : List Char) (hx : GoodExterns env.hooks)
+    (hv : ExternValsB cs env.hooks) (rule : String) (n u : Nat) {r : Res Val} {g : Global}
+    (h : parseAdvanced env n rule (enc cs) u = some (r, g)) : ∀ v s, r = .ok v s → ValB cs v :=
+  Peg.C04_values_on_boundaries env cs hx hv rule n u h
+
+/-- the invariant behind these: every intermediate state, recorded furthest error and cache entry
+    stays on boundaries, for every construct and every rule kind -/
+theorem C04_invariant (env : Env) (cs : List Char) (hx : GoodExterns env.hooks) (n : Nat)
+    (name : String) (s : St) (g : Global) {r g'} (h : (eval env n).rule name s g = some (r, g'))
+    (hs : BSt' cs s) (hc : CacheB cs g) : ResB cs r ∧ CacheB cs g' :=
+  (eval_boundary env cs hx n).2 name s g r g' h hs hc
 
 end Peg.Props
